@@ -345,7 +345,8 @@ Inductive jeff (c : cfg) (s s' : state) (x : nat) (sub : Prop) : Prop :=
                     In x (pend (Rn s' (parent c x))) -> jeff c s s' x sub
 | JE_start : sub -> st (Jb s x) = Created -> cp (Jb s x) = false ->
              st (Jb s' x) = Running -> cp (Jb s' x) = false -> ran (Jb s' x) = true ->
-             (exists d, tend (Jb s' x) = optN_add (now s) d) -> jeff c s s' x sub
+             tend (Jb s' x) = (if j_sched (jc c x) then None else optN_add (now s) (j_dur (jc c x))) ->
+             jeff c s s' x sub
 | JE_start_done : sub -> st (Jb s x) = Created -> cp (Jb s x) = false -> j_sched (jc c x) = true ->
                   members c x = [] ->
                   Jb s' x = mkJst (DoneRet RVTrue) false None true -> jeff c s s' x sub
@@ -354,7 +355,7 @@ Inductive jeff (c : cfg) (s s' : state) (x : nat) (sub : Prop) : Prop :=
             (j_sched (jc c x) = true -> rcanc (Rn s x) = false /\ ph (Rn s x) <> PCTidy) -> jeff c s s' x sub
 | JE_hit : sub -> st (Jb s x) = Running -> cp (Jb s x) = true -> j_sched (jc c x) = false ->
            st (Jb s' x) = Cancelling -> cp (Jb s' x) = false -> ran (Jb s' x) = true ->
-           (exists d, tend (Jb s' x) = optN_add (now s) d) -> jeff c s s' x sub
+           tend (Jb s' x) = Some (now s + j_cdur (jc c x))%N -> jeff c s s' x sub
 | JE_cancelled : sub ->
                  (st (Jb s x) = Cancelling \/
                   (st (Jb s x) = Running /\ j_sched (jc c x) = true /\
@@ -405,7 +406,8 @@ Proof.
       destruct (Nat.eqb_spec x n) as [->|Hxn]; [|apply JE_same; exact E].
       apply rootb_false in Hn0. rewrite Hn0 in Hg.
       destruct (st (Jb s n)) eqn:Est; try discriminate. apply negb_true_iff in Hg.
-      apply JE_start; auto; try (rewrite E; reflexivity). exists None. rewrite E. reflexivity.
+      apply JE_start; auto; try (rewrite E; reflexivity).
+      unfold sched_id in Hs. apply andb_true_iff in Hs. destruct Hs as [Hs1 _]. rewrite E, Hs1. reflexivity.
 Qed.
 
 Lemma ph_exit_main c n w p s :
@@ -698,7 +700,7 @@ Proof.
     destruct (Nat.eqb_spec x j) as [->|Hx]; [|apply JE_same; rewrite E, upd_other by exact Hx; reflexivity].
     destruct (st (Jb s j)) eqn:Est; try discriminate. apply negb_true_iff in G0.
     apply JE_start; auto; try (rewrite E, upd_same; reflexivity).
-    exists (j_dur (jc c j)). rewrite E, upd_same. reflexivity.
+    destruct (atomic_id_spec _ _ G) as (A1 & _). rewrite E, upd_same, A1. reflexivity.
   - (* EFinish *) split_guards Hg. cbn [fst].
     assert (E : forall y, Jb (eff_finish c j oc s) y =
                 upd (Jb s) j (mkJst (match oc with ORet => DoneRet RVOwn | OExc => DoneExc (tag_job j) end) false None true) y) by reflexivity.
@@ -714,7 +716,6 @@ Proof.
     destruct (st (Jb s j)) eqn:Est; try discriminate.
     destruct (atomic_id_spec _ _ G) as (A1 & A2 & A3).
     apply JE_hit; auto; try (rewrite E, upd_same; reflexivity).
-    exists (Some (j_cdur (jc c j))). rewrite E, upd_same. reflexivity.
   - (* ECancelEnd *) split_guards Hg. cbn [fst].
     assert (E : forall y, Jb (eff_cancel_over c j s) y = upd (Jb s) j (mkJst Cancelled false None true) y) by reflexivity.
     destruct (Nat.eqb_spec x j) as [->|Hx]; [|apply JE_same; rewrite E, upd_other by exact Hx; reflexivity].
